@@ -8,6 +8,7 @@ non-empty words over letters, digits, `+ - .` that do not start with `n`, object
 `"` (json::dumpToString does not escape keys).
 -/
 import OccaModel.CacheKey
+import OccaProofs.Lemmas.CacheKey
 
 namespace Occa.CacheKey
 
@@ -49,18 +50,6 @@ theorem span_unique (p : Char → Bool) :
     exact ⟨by rw [hc, e1], e2⟩
 
 /-! ### string escaping -/
-
-def escCharL (c : Char) : List Char :=
-  if c = '"' then ['\\', '"']
-  else if c = '\\' then ['\\', '\\']
-  else if c = '\x08' then ['\\', 'b']
-  else if c = '\x0c' then ['\\', 'f']
-  else if c = '\n' then ['\\', 'n']
-  else if c = '\r' then ['\\', 'r']
-  else if c = '\t' then ['\\', 't']
-  else [c]
-
-def escL (s : List Char) : List Char := s.flatMap escCharL
 
 /-- the first character of an escaped character is never the closing quote, and the escaped
     form determines the character -/
@@ -139,33 +128,14 @@ theorem escL_cancel : ∀ (s t r₁ r₂ : List Char),
     obtain ⟨e3, e4⟩ := escL_cancel s t r₁ r₂ e2
     exact ⟨by rw [e1, e3], e4⟩
 
-/-! ### the dump on character lists -/
-
-mutual
-def dumpL : J → List Char
-  | .none => []
-  | .null => ['n', 'u', 'l', 'l']
-  | .lit t => t.toList
-  | .str s => '"' :: (escL s.toList ++ ['"'])
-  | .arr xs => '[' :: (dumpArrL xs ++ [']'])
-  | .obj kvs => '{' :: (dumpObjL kvs ++ ['}'])
-def dumpArrL : List J → List Char
-  | [] => []
-  | x :: t => dumpL x ++ ((if t.isEmpty then [] else [',', ' ']) ++ dumpArrL t)
-def dumpObjL : List (String × J) → List Char
-  | [] => []
-  | (k, v) :: t =>
-    '"' :: (k.toList ++ ('"' :: ':' :: ' ' ::
-      ((match v with | .none => ['{', '}'] | v => dumpL v)
-        ++ ((if t.isEmpty then [] else [',', ' ']) ++ dumpObjL t))))
-end
-
 /-! ### well-formed values -/
 
 def litOk (t : String) : Prop :=
   t.toList ≠ [] ∧ (∀ c ∈ t.toList, tokChar c = true) ∧ ∀ r, t.toList ≠ 'n' :: r
 
 def keyOk (k : String) : Prop := ∀ c ∈ k.toList, (c != '"') = true
+
+instance (k : String) : Decidable (keyOk k) := by unfold keyOk; infer_instance
 
 mutual
 def J.WF : J → Prop
@@ -521,5 +491,103 @@ theorem dumpL_injective (a b : J) (ha : a.WFtop) (hb : b.WFtop) (h : dumpL a = d
     simp at h
   · have := dumpL_cancel a b [] [] ha hb (by simpa using h) (Or.inl rfl) (Or.inl rfl)
     exact this.1
+
+theorem dump_injective (a b : J) (ha : a.WFtop) (hb : b.WFtop) (h : dump a = dump b) : a = b :=
+  dumpL_injective a b ha hb (String.ofList_injective h)
+
+/-! ### the objects hashed by the key construction are well-formed -/
+
+theorem wfo_insertKV (k : String) (v : J) (hk : keyOk k) (hv : v.WF) :
+    ∀ (l : List (String × J)), WFo l → WFo (insertKV k v l)
+  | [], _ => by
+    simp only [insertKV, WFo]
+    exact ⟨hk, hv, trivial⟩
+  | (k', v') :: t, hl => by
+    simp only [WFo] at hl
+    unfold insertKV
+    by_cases h1 : k < k'
+    · rw [if_pos h1]
+      simp only [WFo]
+      exact ⟨hk, hv, hl.1, hl.2.1, hl.2.2⟩
+    · rw [if_neg h1]
+      by_cases h2 : k = k'
+      · rw [if_pos h2]
+        simp only [WFo]
+        exact ⟨hk, hv, hl.2.2⟩
+      · rw [if_neg h2]
+        simp only [WFo]
+        exact ⟨hl.1, hl.2.1, wfo_insertKV k v hk hv t hl.2.2⟩
+
+theorem wfo_mkMap : ∀ (l : List (String × J)), (∀ kv ∈ l, keyOk kv.1 ∧ kv.2.WF) → WFo (mkMap l)
+  | [], _ => by simp [mkMap, WFo]
+  | (k, v) :: t, h => by
+    show WFo (insertKV k v (mkMap t))
+    exact wfo_insertKV k v (h (k, v) (by simp)).1 (h (k, v) (by simp)).2 _
+      (wfo_mkMap t (fun kv m => h kv (List.mem_cons_of_mem _ m)))
+
+theorem wftop_mkObj (l : List (String × J)) (h : ∀ kv ∈ l, keyOk kv.1 ∧ kv.2.WF) : (mkObj l).WFtop := by
+  unfold mkObj
+  cases l with
+  | nil => exact Or.inl rfl
+  | cons a t =>
+    right
+    simp only [List.isEmpty_cons, Bool.false_eq_true, if_false, J.WF]
+    exact wfo_mkMap _ h
+
+theorem wftop_objOf (names : List String) (g : String → Option J) (hk : ∀ n ∈ names, keyOk n)
+    (hv : ∀ n v, g n = some v → v.WF) : (objOf names g).WFtop := by
+  unfold objOf
+  apply wftop_mkObj
+  intro kv hm
+  obtain ⟨n, hn, hf⟩ := List.mem_filterMap.mp hm
+  cases hg : g n with
+  | none => simp [hg] at hf
+  | some v =>
+    simp only [hg, Option.map_some, Option.some.injEq] at hf
+    rw [← hf]
+    exact ⟨hk n hn, hv n v hg⟩
+
+/-- every property value of the configuration is a well-formed JSON value -/
+def Config.WF (c : Config) : Prop := ∀ n v, c.get n = some v → v.WF
+
+variable {κ σ : Type}
+
+/-- with well-formed property values and well-formed renderings, everything the key
+    construction feeds to the encoder is well-formed -/
+theorem ok_of_wf (e : Env κ σ) (sh : Shape) (hfw : ∀ k, (e.full k).WF) (c : Config) (hc : c.WF) :
+    Config.Ok e J.WFtop c := by
+  have hfield : ∀ n v, fieldVal true c.get n = some v → v.WF := by
+    intro n v h
+    rw [fieldVal_true] at h
+    exact hc n v h
+  refine ⟨?_, ?_, ?_⟩
+  · unfold partList
+    apply wftop_mkObj
+    intro kv hm
+    obtain ⟨lp, hlp, hf⟩ := List.mem_filterMap.mp hm
+    have hkey : keyOk lp.1 := by
+      have : ∀ lp ∈ Gen.setupParts, keyOk lp.1 := by decide
+      exact this lp hlp
+    cases hp : partVal e c lp.2 with
+    | none => simp [hp] at hf
+    | some v =>
+      simp only [hp, Option.map_some, Option.some.injEq] at hf
+      rw [← hf]
+      refine ⟨hkey, ?_⟩
+      obtain ⟨l, q, g⟩ := lp
+      cases q with
+      | deviceHash => simp only [partVal, render_full e sh, Option.some.injEq] at hp; rw [← hp]; exact hfw _
+      | modeHash => simp only [partVal, render_full e sh, Option.some.injEq] at hp; rw [← hp]; exact hfw _
+      | headerHash => simp only [partVal, render_full e sh, Option.some.injEq] at hp; rw [← hp]; exact hfw _
+      | sourceHash => simp only [partVal, render_full e sh, Option.some.injEq] at hp; rw [← hp]; exact hfw _
+      | prop n =>
+        have hg := guarded_of_mem sh hlp
+        subst hg
+        simp only [partVal] at hp
+        exact hfield n v hp
+  · rw [sh.serialSkip]
+    exact wftop_objOf _ _ (by decide) hfield
+  · rw [sh.headerSkip]
+    exact wftop_objOf _ _ (by decide) hfield
 
 end Occa.CacheKey
